@@ -1,5 +1,7 @@
 import NbioVerif.Lemmas.C08Meta
 import NbioVerif.Lemmas.C08Glue
+import NbioVerif.Lemmas.C08Engine
+import NbioVerif.Lemmas.C06Chain
 /-! C08: parser robustness and bounds (model level).
 
 * `c08_no_hang`        the Go-shaped index loop never runs out of fuel (fuel = |buf|+1), i.e. the
@@ -15,6 +17,11 @@ import NbioVerif.Lemmas.C08Glue
 * `c08_no_nil_deref`   the callbacks `Parse` makes can always be consumed by the real processors' logic: no callback
                        is made while the request/response it writes to does not exist (a nil dereference inside a
                        callback would be a panic inside `Parse`)
+* engine level (`Model/HttpEngine.lean`, the four readers of nbhttp/engine.go): `c08_engine_nonblocking`,
+  `c08_engine_blocking`, `c08_engine_tls_nonblocking`, `c08_engine_tls_blocking` — for every read sequence (and TLS-layer
+  output) all parser events precede the closing observations, the connection / parser / OnClose are closed / run at
+  most once (exactly once once sealed), and a sealed reader ignores everything the transport delivers afterwards;
+  `c08_engine_error_seals_*` — a failing `Parse` seals the reader in the same step
 * `c08_silent_after_close` once the engine glue has closed the parser (`CloseAndClean` on error), no Parse call
                        emits an event
 -/
@@ -65,6 +72,33 @@ theorem implParse_no_fuel (M : Machine σ ε) (wf : WF M) (hE : ErrIn M (· ≠ 
   intro acc' h
   rw [implParse_eq_spec M wf st cache data acc hg] at h
   exact specFeed_err M (· ≠ 999) hE data st cache acc acc' 999 h rfl
+
+/-- the chain of `Parse` calls the driver runs never exhausts the loop's fuel, from any state satisfying the scanner
+    invariant (in particular from a fresh parser): the invariant is re-established by every call -/
+theorem feedAllL_no_fuel (M : Machine σ ε) (wf : WF M) (hE : ErrIn M (· ≠ 999)) (limit : Nat) :
+    ∀ (segs : List (List UInt8)) (st : σ) (cache : List UInt8) (acc : List ε), Good M st cache →
+      ∀ acc', feedAllL M limit st cache segs acc ≠ ⟨acc', .inr 999⟩ := by
+  intro segs
+  induction segs with
+  | nil => intro st cache acc _ acc' h; simp [feedAllL] at h
+  | cons seg segs ih =>
+    intro st cache acc hg acc' h
+    simp only [feedAllL, parseLC_eq] at h
+    by_cases ht : cache ≠ [] ∧ limit > 0 ∧ cache.length + seg.length > limit
+    · simp [parseL, ht] at h
+    · simp only [parseL, ht, if_false] at h
+      cases hr : implParse M st cache seg acc with
+      | mk a fin =>
+        rw [hr] at h
+        cases fin with
+        | inl pr =>
+          obtain ⟨st', cache'⟩ := pr
+          exact ih st' cache' a (implParse_good M wf st cache seg acc hg a st' cache' hr) acc' h
+        | inr e =>
+          simp only [Res.mk.injEq, Sum.inr.injEq] at h
+          obtain ⟨h1, h2⟩ := h
+          subst h1 h2
+          exact implParse_no_fuel M wf hE st cache seg acc hg a hr
 
 end Scan
 
@@ -129,6 +163,29 @@ theorem c08_content_length (p p' : P) (v : Bytes) (rest : List Bytes) (h : endOf
       ∀ w ∈ rest, trimRightSpaces w = trimRightSpaces v :=
   cl_accepted p p' v rest h hte hcl
 
+/-- C08: Content-Length garbage is rejected also when `Transfer-Encoding: chunked` overrides the length. -/
+theorem c08_content_length_any (p p' : P) (v : Bytes) (rest : List Bytes) (h : endOfHeaders p = .ok p')
+    (hcl : p.cl = v :: rest) :
+    clShape (trimRightSpaces v) = true ∧ ∀ w ∈ rest, trimRightSpaces w = trimRightSpaces v :=
+  cl_accepted_any p p' v rest h hcl
+
+/-- C08: the chunk-size line is `HEXDIG+ (SP|HTAB)* [";" extension] CR`: any other byte at the place concerned is
+    `ErrInvalidChunkSize` (no "hex prefix" is guessed: `1g`, `1 zz`, `12 3` are errors). -/
+theorem c08_chunk_line_grammar (g : Cfg) (p : P) (tok : Bytes) (c : UInt8) (hs : p.st = .chunkSize) :
+    (c = LF → byteStep g p tok c = .err E.invalidChunkSize.code []) ∧
+    (p.chunkSize < 0 → isHex c = false → c ≠ SP → c ≠ 9 → c ≠ 59 → c ≠ CR →
+      byteStep g p tok c = .err E.invalidChunkSize.code []) ∧
+    (¬ p.chunkSize < 0 → p.chunkExt = false → c ≠ SP → c ≠ 9 → c ≠ 59 → c ≠ CR →
+      byteStep g p tok c = .err E.invalidChunkSize.code []) :=
+  chunk_line_grammar g p tok c hs
+
+/-- C08: a bare LF is an error in the status line, the header section, the chunk-size line and the trailer section. -/
+theorem c08_bare_lf_rejected (g : Cfg) (p : P) (tok : Bytes)
+    (hs : p.st = .statusBefore ∨ p.st = .status ∨ p.st = .chunkSize ∨ p.st = .trValueBefore ∨ p.st = .trValue ∨
+          p.st = .trKeyBefore ∨ p.st = .statusCodeBefore ∨ p.st = .headerKeyBefore ∨ p.st = .headerKey ∨
+          p.st = .headerValueBefore ∨ p.st = .headerValue) :
+    ∃ e, byteStep g p tok LF = .err e [] := bare_lf_rejected g p tok hs
+
 /-- C08: an accepted chunk size is `HEXDIG+` with a value below 2^62 ≤ MaxInt. -/
 theorem c08_chunk_size (s : Bytes) (n : Nat) (h : parseHexSize s = some n) :
     s ≠ [] ∧ s.all isHex = true ∧ n < 2 ^ 62 := chunk_accepted s n h
@@ -154,18 +211,20 @@ theorem c08_bare_lf_in_header (g : Cfg) (p : P) (tok : Bytes)
     (hs : p.st = .headerKeyBefore ∨ p.st = .headerKey ∨ p.st = .headerValueBefore ∨ p.st = .headerValue) :
     byteStep g p tok LF = .err E.invalidCharInHeader.code [] := bare_lf_in_header g p tok hs
 
-/-- C08: nothing further after an error, for the engine glue "close the parser on error" (`CloseAndClean` sets
-    `stateClose`): a closed parser returns `net.ErrClosed` on every non-empty input without emitting any event. -/
-theorem c08_silent_after_close (g : Cfg) (p : P) (cache data : Bytes) (hs : p.st = .close) (hd : data ≠ [])
-    (hc : cache = []) :
-    implParse (machine g) p cache data [] = ⟨[], .inr E.closed.code⟩ := by
-  subst hc
-  cases data with
-  | nil => exact absurd rfl hd
-  | cons d ds =>
-    simp only [implParse, reduceCtorEq, if_false, List.nil_append, List.length_cons, List.length_nil]
-    unfold loop
-    simp [machine, block, hs, byteStep, er]
+/-- C08: `Parse` terminates along every chain of calls from a fresh parser, with or without a ReadLimit — no hypothesis
+    on intermediate states (the scanner invariant `Good` is established by `init` and kept by every call). -/
+theorem c08_no_hang_chain (g : Cfg) (limit : Nat) (segs : List Bytes) :
+    ∀ acc', feedAllL (machine g) limit (init g) [] segs [] ≠ ⟨acc', .inr 999⟩ :=
+  feedAllL_no_fuel (machine g) (wf g) (errIn_machine g) limit segs (init g) [] []
+    (fun n hn => (wf g).pos _ _ hn)
+
+/-- C08: retained bytes along every chain of calls from a fresh parser: with a ReadLimit set, what the parser holds
+    after any number of `Parse` calls is at most the limit or the largest single read. -/
+theorem c08_retained_chain (g : Cfg) (limit : Nat) (hl : 0 < limit) (segs : List Bytes) acc' st' cache'
+    (h : feedAllL (machine g) limit (init g) [] segs [] = ⟨acc', .inl (st', cache')⟩) :
+    cache'.length ≤ max limit (maxLen segs) := by
+  have := feedAllL_retained (machine g) limit hl segs (init g) [] [] 0 (by simp) acc' st' cache' h
+  simpa using this
 
 /-- C08: no nil dereference in the processor glue. `ObjInv g p cur` ties the parser state to the processor ("a message
     object exists exactly between the first event of a message and its `complete`"); it holds for a fresh parser and
@@ -175,7 +234,13 @@ theorem c08_no_nil_deref (g : Cfg) (p : P) (cache data : Bytes) (cur : Option Bu
     RunOk g cur [] (implParse (machine g) p cache data []) :=
   implParse_objInv g p cache data cur hI
 
-theorem c08_no_nil_deref_init (g : Cfg) : ObjInv g (init g) none := objInv_init g
+/-- C08: for every segmentation of every input (and every ReadLimit), running the real processors' logic over the events
+    of the chain of `Parse` calls from a fresh parser never hits a nil request/response. -/
+theorem c08_no_nil_deref_chain (g : Cfg) (limit : Nat) (segs : List Bytes) :
+    ∃ r, procRun g.isClient none (feedAllL (machine g) limit (init g) [] segs []).evs [] = some r := by
+  obtain ⟨evs', e, cur', out, hp, _⟩ := feedAllL_objInv g limit segs (init g) [] [] none (objInv_init g)
+  simp only [List.nil_append] at e
+  exact ⟨(cur', out), by rw [e]; exact hp⟩
 
 def g0 : Cfg := { isClient := false, maxBody := 0, urlOk := fun _ => true, protoOk := fun _ => true }
 
@@ -197,3 +262,120 @@ example : (endOfHeaders { st := .headerKeyBefore, cl := [str "3", str "4"] }).is
 example : (endOfHeaders { st := .headerKeyBefore, cl := [str "3 ", str "3"] }).isOk = true := by decide
 
 end Http
+
+namespace HttpEngine
+open Scan
+variable {σ ε : Type}
+
+/-- **C08, engine level, non-blocking (`DataHandler`).** For every machine, limit, initial state and sequence of read
+    results: all parser events precede the closing observations; the connection is closed at most once and
+    `CloseAndClean`/`_onClose` run at most once (exactly once after a parse or read error); and once the reader is
+    sealed — which a failing `Parse` does in the same step (`c08_engine_error_seals_nonblocking`) — nothing the transport
+    delivers afterwards changes the trace: no further event, no second close. -/
+theorem c08_engine_nonblocking (M : Machine σ ε) (limit : Nat) (st0 : σ) (rs more : List ReadRes) :
+    let c := runNB M limit (fresh st0) rs
+    EvsThenClosings c.trace ∧
+    List.countP Obs.isConnClose c.trace ≤ 1 ∧ List.countP Obs.isParserClose c.trace ≤ 1 ∧
+    List.countP Obs.isOnClose c.trace ≤ 1 ∧
+    (sealNB c = true → List.countP Obs.isParserClose c.trace = 1 ∧ List.countP Obs.isOnClose c.trace = 1 ∧
+      runNB M limit (fresh st0) (rs ++ more) = c) := by
+  intro c
+  have hI : Inv sealNB closingsNB c := runNB_inv M limit rs _ (fresh_inv _ _ st0 rfl)
+  obtain ⟨a, b, c', d, e⟩ := inv_trace sealNB closingsNB closingsNB_ok c hI
+  refine ⟨a, b, c', d, fun hs => ⟨(e hs).1, (e hs).2, ?_⟩⟩
+  show runNB M limit (fresh st0) (rs ++ more) = runNB M limit (fresh st0) rs
+  simp only [runNB, List.foldl_append]
+  exact runNB_sealed M limit more _ hs
+
+theorem c08_engine_error_seals_nonblocking (M : Machine σ ε) (limit : Nat) (c : Conn σ ε) (d : Bytes)
+    (ho : sealNB c = false) (he : (feed M limit c d).2 = true) : sealNB (stepNB M limit c (.data d)) = true :=
+  stepNB_error_seals M limit c d ho he
+
+/-- **C08, engine level, blocking (`readConnBlocking`).** Same statement for the blocking read loop: after a parse
+    error (`conn.Close()`, then the deferred `CloseAndClean`, `_onClose`) or a read error the goroutine has returned. -/
+theorem c08_engine_blocking (M : Machine σ ε) (limit : Nat) (st0 : σ) (rs more : List ReadRes) :
+    let c := runB M limit (fresh st0) rs
+    EvsThenClosings c.trace ∧
+    List.countP Obs.isConnClose c.trace ≤ 1 ∧ List.countP Obs.isParserClose c.trace ≤ 1 ∧
+    List.countP Obs.isOnClose c.trace ≤ 1 ∧
+    (sealB c = true → List.countP Obs.isParserClose c.trace = 1 ∧ List.countP Obs.isOnClose c.trace = 1 ∧
+      runB M limit (fresh st0) (rs ++ more) = c) := by
+  intro c
+  have hI : Inv sealB closingsB c := runB_inv M limit rs _ (fresh_inv _ _ st0 rfl)
+  obtain ⟨a, b, c', d, e⟩ := inv_trace sealB closingsB closingsB_ok c hI
+  refine ⟨a, b, c', d, fun hs => ⟨(e hs).1, (e hs).2, ?_⟩⟩
+  show runB M limit (fresh st0) (rs ++ more) = runB M limit (fresh st0) rs
+  simp only [runB, List.foldl_append]
+  exact runB_sealed M limit more _ hs
+
+theorem c08_engine_error_seals_blocking (M : Machine σ ε) (limit : Nat) (c : Conn σ ε) (d : Bytes)
+    (ho : sealB c = false) (he : (feed M limit c d).2 = true) : sealB (stepB M limit c (.data d)) = true :=
+  stepB_error_seals M limit c d ho he
+
+/-- **C08, engine level, TLS non-blocking (`TLSDataHandler`).** For every sequence of raw reads and, per read, every
+    sequence of `AppendAndRead` results (plaintext, error flag). -/
+theorem c08_engine_tls_nonblocking (M : Machine σ ε) (limit : Nat) (st0 : σ) (rs more : List (ReadRes × List TlsOut)) :
+    let c := runTlsNB M limit (fresh st0) rs
+    EvsThenClosings c.trace ∧
+    List.countP Obs.isConnClose c.trace ≤ 1 ∧ List.countP Obs.isParserClose c.trace ≤ 1 ∧
+    List.countP Obs.isOnClose c.trace ≤ 1 ∧
+    (sealNB c = true → List.countP Obs.isParserClose c.trace = 1 ∧ List.countP Obs.isOnClose c.trace = 1 ∧
+      runTlsNB M limit (fresh st0) (rs ++ more) = c) := by
+  intro c
+  have hI : Inv sealNB closingsNB c := runTlsNB_inv M limit rs _ (fresh_inv _ _ st0 rfl)
+  obtain ⟨a, b, c', d, e⟩ := inv_trace sealNB closingsNB closingsNB_ok c hI
+  refine ⟨a, b, c', d, fun hs => ⟨(e hs).1, (e hs).2, ?_⟩⟩
+  show runTlsNB M limit (fresh st0) (rs ++ more) = runTlsNB M limit (fresh st0) rs
+  simp only [runTlsNB, List.foldl_append]
+  exact runTlsNB_sealed M limit more _ hs
+
+/-- **C08, engine level, TLS blocking (`readTLSConnBlocking`).** -/
+theorem c08_engine_tls_blocking (M : Machine σ ε) (limit : Nat) (st0 : σ) (rs more : List (ReadRes × List TlsOut)) :
+    let c := runTlsB M limit (fresh st0) rs
+    EvsThenClosings c.trace ∧
+    List.countP Obs.isConnClose c.trace ≤ 1 ∧ List.countP Obs.isParserClose c.trace ≤ 1 ∧
+    List.countP Obs.isOnClose c.trace ≤ 1 ∧
+    (sealB c = true → List.countP Obs.isParserClose c.trace = 1 ∧ List.countP Obs.isOnClose c.trace = 1 ∧
+      runTlsB M limit (fresh st0) (rs ++ more) = c) := by
+  intro c
+  have hI : Inv sealB closingsTlsB c := runTlsB_inv M limit rs _ (fresh_inv _ _ st0 rfl)
+  obtain ⟨a, b, c', d, e⟩ := inv_trace sealB closingsTlsB closingsTlsB_ok c hI
+  refine ⟨a, b, c', d, fun hs => ⟨(e hs).1, (e hs).2, ?_⟩⟩
+  show runTlsB M limit (fresh st0) (rs ++ more) = runTlsB M limit (fresh st0) rs
+  simp only [runTlsB, List.foldl_append]
+  exact runTlsB_sealed M limit more _ hs
+
+/-- a closed parser returns `net.ErrClosed` (code 1) on every input without a single callback -/
+theorem parse_closed (M : Machine σ ε) (limit : Nat) (pc : PC σ) (d : Bytes) (h : pc.closed = true) :
+    parse M limit pc d = (pc, [], some 1) := by simp [parse, h]
+
+/-- **C08 "reports nothing further once it has returned an error"**, for the glue every reader of nbhttp applies
+    (`parseE` = `Parse`, and on an error `CloseAndClean`): once a call has returned an error — from any state, with any
+    cache — every later call, on any data, returns `net.ErrClosed` without events and leaves the parser as it is. -/
+theorem c08_parseE_silent (M : Machine σ ε) (limit : Nat) (pc : PC σ) (d : Bytes) (e : Nat)
+    (h : (parseE M limit pc d).2.2 = some e) (d' : Bytes) :
+    parseE M limit (parseE M limit pc d).1 d' = ((parseE M limit pc d).1, [], some 1) := by
+  have hc : (parseE M limit pc d).1.closed = true := by
+    simp only [parseE] at h ⊢
+    rw [h]; rfl
+  generalize (parseE M limit pc d).1 = q at hc ⊢
+  have hq : ({ q with closed := true } : PC σ) = q := by cases q; simp_all
+  simp [parseE, parse_closed M limit q d' hc, hq]
+
+/-- the bare parser is NOT silent after an error: without the glue's `CloseAndClean`, `Parse` continues from the state it
+    was in (this is why every reader must close: DESIGN 8 #12 was the blocking reader not doing it) -/
+theorem c08_bare_parser_not_silent :
+    ∃ (g : Http.Cfg) (d1 d2 : Bytes),
+      (match (implParse (Http.machine g) (Http.init g) [] d1 []).fin with | .inr e => e | .inl _ => 0) = 2 ∧
+      (implParse (Http.machine g) (Http.init g) [] d2 []).evs.length = 5 :=
+  ⟨Http.g0, [1], Http.str "GET / HTTP/1.1\r\n\r\n", by decide, by decide⟩
+
+/-- non-vacuity: a malformed request followed by a valid one, in two reads, on the real state table: the valid
+    request's events never appear, one connClose, in both plain modes -/
+example :
+    let rs := [ReadRes.data [1], ReadRes.data (Http.str "GET / HTTP/1.1\r\n\r\n")]
+    (runNB (Http.machine Http.g0) 0 (fresh (Http.init Http.g0)) rs).trace = [.connClose, .parserClose, .onClose] ∧
+    (runB (Http.machine Http.g0) 0 (fresh (Http.init Http.g0)) rs).trace = [.connClose, .parserClose, .onClose] := by
+  decide
+
+end HttpEngine
